@@ -5,6 +5,10 @@
 
 package sctp
 
+import "math"
+
+var _ = math.Min
+
 // This file exists only under the build tag "verif". It carries the machine-checked
 // contracts of the functions of this package (comment lines starting with "//@") and
 // the ghost/specification functions those contracts use. It is read by the
@@ -166,3 +170,81 @@ func specRpqInWindow(q *receivePayloadQueue, t uint32) bool {
 //@   modifies q.tsnBitmask[*], q.chunkSize, q.tailTSN, q.cumulativeTSN
 //@   tags C05 C16
 //@   safety C03
+
+// ---- C19: retransmission timers (IEEE-754 binary64 semantics) ----
+
+func isInf(f float64) bool { return f > 1.7976931348623157e308 || f < -1.7976931348623157e308 }
+func isNaN(f float64) bool { return f != f }
+
+// feq is bit-for-bit equality of floats (SMT =), unlike == which is IEEE equality.
+func feq(a, b float64) bool { return math.Float64bits(a) == math.Float64bits(b) }
+
+//@ pred rtoInv(m)
+//@   clause#bounds m.srtt >= 0 && m.rttvar >= 0 && m.rto >= rtoMin && m.rto <= m.rtoMax
+
+//@ func newRTOManager
+//@   requires#max rtoMax == 0 || rtoMax >= rtoMin
+//@   ensures rtoInv(result)
+//@   ensures#initial result.rto == rtoInitial && result.srtt == 0 && !result.noUpdate
+//@   ensures#max result.rtoMax == ite(rtoMax == 0, defaultRTOMax, rtoMax)
+//@   tags C19
+//@   safety C19
+
+//@ func rtoManager.setNewRTT
+//@   requires rtoInv(m)
+//@   requires#sample rtt >= 0 && !isInf(rtt)
+//@   ensures rtoInv(m)
+//@   ensures#frozen old(m.noUpdate) ==> feq(m.srtt, old(m.srtt)) && feq(m.rttvar, old(m.rttvar)) && feq(m.rto, old(m.rto))
+//@   ensures#first !old(m.noUpdate) && old(m.srtt) == 0 ==> m.srtt == rtt && m.rttvar == rtt/2
+//@   ensures#rto !old(m.noUpdate) ==> m.rto == math.Min(math.Max(m.srtt+4*m.rttvar, rtoMin), m.rtoMax)
+//@   ensures#max feq(m.rtoMax, old(m.rtoMax))
+//@   modifies m.srtt, m.rttvar, m.rto
+//@   tags C19
+//@   safety C19
+
+//@ func rtoManager.getRTO
+//@   ensures#value feq(result, m.rto)
+//@   modifies nothing
+//@   tags C19
+
+//@ func rtoManager.reset
+//@   requires rtoInv(m)
+//@   requires#max m.rtoMax >= rtoMin
+//@   ensures rtoInv(m)
+//@   modifies m.srtt, m.rttvar, m.rto
+//@   tags C19
+
+//@ func calculateNextTimeout
+//@   requires#finite rto >= 0 && rtoMax >= 0
+//@   ensures#upper result <= rtoMax
+//@   ensures#lower rto <= rtoMax ==> result >= rto
+//@   ensures#cap nRtos >= 31 ==> result == rtoMax
+//@   ensures#first nRtos == 0 ==> result == math.Min(rto, rtoMax)
+//@   ensures#second nRtos == 1 ==> result == math.Min(2*rto, rtoMax)
+//@   tags C19
+//@   safety C19
+
+//@ func rtxTimer.timeout
+//@   requires#wf t.observer != nil && t.rto >= 0 && t.rtoMax >= 0
+//@   at call rtxTimerObserver.onRetransmissionFailure assert#only-when-exhausted t.maxRetrans != 0 && t.nRtos > t.maxRetrans && old(t.pending) == 1 && old(t.state) == rtxTimerStarted
+//@   at call rtxTimerObserver.onRetransmissionTimeout assert#within-budget (t.maxRetrans == 0 || t.nRtos <= t.maxRetrans) && arg2 == t.nRtos && t.nRtos == old(t.nRtos)+1 && old(t.pending) == 1 && old(t.state) == rtxTimerStarted
+//@   ensures#forever old(t.pending) == 1 && old(t.state) == rtxTimerStarted && t.maxRetrans == 0 ==> t.state == rtxTimerStarted && t.pending == 1
+//@   ensures#gives-up old(t.pending) == 1 && old(t.state) == rtxTimerStarted && t.maxRetrans != 0 && old(t.nRtos) >= t.maxRetrans && old(t.nRtos) < 1<<62 ==> t.state == rtxTimerStopped
+//@   ensures#retries old(t.pending) == 1 && old(t.state) == rtxTimerStarted && t.maxRetrans != 0 && old(t.nRtos) < t.maxRetrans ==> t.state == rtxTimerStarted && t.nRtos == old(t.nRtos)+1
+//@   ensures#stale old(t.pending) != 1 || old(t.state) != rtxTimerStarted ==> t.state == old(t.state) && t.nRtos == old(t.nRtos)
+//@   tags C19
+//@   safety C19
+
+//@ func rtxTimer.start
+//@   ensures#started old(t.state) == rtxTimerStopped ==> result && t.state == rtxTimerStarted && t.nRtos == 0 && feq(t.rto, rto)
+//@   ensures#refused old(t.state) != rtxTimerStopped ==> !result && t.state == old(t.state) && t.nRtos == old(t.nRtos)
+//@   tags C19
+
+//@ func rtxTimer.stop
+//@   ensures#stopped old(t.state) == rtxTimerStarted ==> t.state == rtxTimerStopped
+//@   ensures#other old(t.state) != rtxTimerStarted ==> t.state == old(t.state)
+//@   tags C19
+
+//@ func rtxTimer.close
+//@   ensures#closed t.state == rtxTimerClosed
+//@   tags C19
